@@ -503,6 +503,11 @@ class Update(object):
         # ---------------+--------+---------+------+
         #    Maker      | Length |  Type   |  msg |
         # ---------------+--------+---------+------+
+        if len(msg) + 19 > bgp_cons.MAX_LEN:
+            # no BGP message is larger than 4096 octets, the peer would answer with Bad Message Length
+            raise excep.ConstructAttributeFailed(
+                reason='update message of %s octets is larger than %s' % (len(msg) + 19, bgp_cons.MAX_LEN),
+                data='')
         return b'\xff' * 16 + struct.pack('!HB', len(msg) + 19, 2) + msg
 
     @staticmethod
